@@ -52,4 +52,8 @@ class CallWriteHandler(AbstractWriteHandler):
         self.decompiler.write_stmnt(f"call @label_{op.label.id};")
         exits = self.start_vertex.out_edges()
         assert 3 > len(exits) > 0, f"A call must have exactly one or two points to jump to, has {len(exits)}."
-        return exits[0].target_vertex
+        # Continue with the operation after the call, not with the called label: that is the exit with the lower
+        # flow level that does not lead to the called label. (The exits are ordered by the index of their target
+        # vertex, so a call to a label further up in the routine would have the called label first.)
+        after_call = [e for e in exits if e.target_vertex["op"] is not op.label] or exits
+        return min(after_call, key=lambda e: e["flow_level"]).target_vertex
